@@ -420,6 +420,11 @@ def mentions(a, toks):
 
 # ====================================================================== oracle
 def expected_default(a, eff, ents_by_id, order, global_ids=()):
+    mode, exp, _ = expected_default3(a, eff, ents_by_id, order, global_ids)
+    return mode, exp
+
+
+def expected_default3(a, eff, ents_by_id, order, global_ids=()):
     """what the defaults phase gives an argument that is absent after command line and environment,
     read from the documentation: the first `default_value_if` whose condition holds decides (None = no
     default at all), otherwise the plain default.  Returns ('exact', values|None) or ('any', candidates)."""
@@ -440,14 +445,14 @@ def expected_default(a, eff, ents_by_id, order, global_ids=()):
             continue            # that default did not exist yet when this argument's defaults were resolved
         vals = [v for g in e["occ"] for v in g]
         if pred is None or pred in vals:
-            return "exact", (None if d is None else split_vals(a, [d]))
+            return "exact", (None if d is None else split_vals(a, [d])), True
     if exact:
-        return "exact", (split_vals(a, plain) if plain else None)
+        return "exact", (split_vals(a, plain) if plain else None), False
     cands = [split_vals(a, [d]) for _, _, d in a.get("difs", []) if d is not None]
     cands.append(split_vals(a, plain) if plain else None)
     if any(d is None for _, _, d in a.get("difs", [])):
         cands.append(None)
-    return "any", cands
+    return "any", cands, False
 
 
 def _expected_occurrences(a, toks, sub_names):
@@ -734,13 +739,9 @@ def make_nontrivial(stats_out):
                 has_def = bool(a.get("default") or a.get("difs") or a.get("action") in FLAG_ACTIONS)
                 fired = False
                 if a.get("difs"):
-                    mode, exp = expected_default(a, eff, by_id, order)
-                    plain = a.get("default")
-                    if mode == "exact":
-                        fired = exp != (split_vals(a, plain) if plain else None) or any(
-                            t in by_id for t, _, _ in a["difs"])
-                        if src == "default" or src == "absent":
-                            cond["fired->value" if (exp is not None and fired) else "fired->None" if fired else "none fired"] += 1
+                    mode, exp, fired = expected_default3(a, eff, by_id, order)
+                    if mode == "exact" and src in ("default", "absent"):
+                        cond["fired->value" if (fired and exp is not None) else "fired->None" if fired else "none fired"] += 1
                 combos[(src == "cmdline", has_env, has_def, fired)] += 1
                 if (src == "cmdline") + has_env + has_def >= 2:
                     nt = True
